@@ -360,6 +360,14 @@ def name_cases():
                 elts = [N(t), N("n"), gen.binop(ast.Add, N(t), N("n"))] + ([N("x")] if t != "x" else [])
                 for elt in elts:
                     out.append(mk_comp(kind, t, N("xs"), _conds(t, style, nif), elt))
+    # constant conditions: a falsy constant of any type filters everything out, a truthy one nothing
+    for kind in KINDS:
+        for k in (0, 1, True, False, None, "", "a", 0.0, 2.5, b"", -1):
+            for t in ("j", "x"):
+                real = gen.cmp(ast.Gt, N(t), C(0))
+                for ifs in ([ast.Constant(value=k)], [ast.Constant(value=k), real], [copy.deepcopy(real), ast.Constant(value=k)]):
+                    for elt in (N(t), gen.binop(ast.Add, N(t), N("n"))):
+                        out.append(mk_comp(kind, t, N("xs"), copy.deepcopy(ifs), elt))
     pool = ["j", "jet", "x", "x2"]
     for kind in KINDS:
         for o in pool:
